@@ -89,6 +89,46 @@ def locate(p, poly):
     return 'in' if inside else 'out'
 
 
+def seg_cross(a, b, c, d):
+    """the open segments ab and cd cross at a single interior point (exact)"""
+    def side(p, q, r):
+        v = cross((q[0] - p[0], q[1] - p[1]), (r[0] - p[0], r[1] - p[1]))
+        return (v > 0) - (v < 0)
+    return side(a, b, c) * side(a, b, d) < 0 and side(c, d, a) * side(c, d, b) < 0
+
+
+def boundary_sides(g):
+    """(column, local side index) of the sides that belong to one column only, in a deterministic order"""
+    count = {}
+    for c in g.columnlist:
+        k = len(c.node)
+        for i in range(k):
+            e = frozenset((id(c.node[i]), id(c.node[(i + 1) % k])))
+            count[e] = count.get(e, 0) + 1
+    out = []
+    for c in sorted(g.columnlist, key=ckey):
+        k = len(c.node)
+        for i in range(k):
+            if count[frozenset((id(c.node[i]), id(c.node[(i + 1) % k])))] == 1:
+                out.append((c, i))
+    return out
+
+
+def overlaps_mesh(g, tri):
+    """does the (counter-clockwise) polygon `tri` overlap the interior of any column? (exact)"""
+    ctr = centroid_exact(tri)
+    for c in g.columnlist:
+        p = colpoly(c)
+        if locate(ctr, p) == 'in' or any(locate(v, tri) == 'in' for v in p) or any(locate(v, p) == 'in' for v in tri):
+            return True
+        n, m = len(p), len(tri)
+        if any(seg_cross(p[i], p[(i + 1) % n], tri[j], tri[(j + 1) % m]) for i in range(n) for j in range(m)):
+            return True
+        if any(locate(v, tri) == 'on' and v not in tri for v in p):
+            return True        # a node of the mesh would hang on a side of the new column
+    return False
+
+
 # ----------------------------------------------------------------------------- recipes
 
 def build(mg, recipe):
@@ -126,7 +166,7 @@ def build(mg, recipe):
                 while frontier and len(patch) < keep[2]:
                     nxt = []
                     for c in frontier:
-                        for nb in sorted(c.neighbour, key=lambda k: k.name):
+                        for nb in sorted(c.neighbour, key=ckey):
                             if id(nb) not in seen and len(patch) < keep[2]:
                                 seen.add(id(nb)); patch.append(nb); nxt.append(nb)
                     frontier = nxt
@@ -146,6 +186,15 @@ def build(mg, recipe):
 
 
 # ----------------------------------------------------------------------------- locators
+
+def ckey(col):
+    """a deterministic sort key for columns (names of refined columns depend on set iteration order)"""
+    return (float(col.centre[0]), float(col.centre[1]))
+
+
+def nkey(nd):
+    return (float(nd.pos[0]), float(nd.pos[1]), nd.name)
+
 
 def col_loc(col):
     return [hx(col.centre[0]), hx(col.centre[1])]
@@ -216,11 +265,36 @@ def default_num_layers(g, surface):
     return len([l for l in g.layerlist[1:] if l.bottom < surface])
 
 
-def apply_op(mg, g, op, tmpdir=None):
+def refine_unsupported(g, cols, bisect, edge):
+    """does this refine() call involve a column with more than 4 sides (which refine does not support)?
+    Mirrors how refine collects `columns_plus_edge`."""
+    cols = cols or list(g.columnlist)
+    involved = {id(c): c for c in list(cols) + list(edge)}
+    for col in cols:
+        if bisect:
+            sides = col.bisection_sides(None if bisect is True else bisect)
+            if sides is None:
+                return True
+            for i in sides:
+                con = g.connection_with_nodes([col.node[i], col.node[(i + 1) % col.num_nodes]])
+                if con:
+                    for c in con.column:
+                        involved[id(c)] = c
+        else:
+            for con in col.connection:
+                for c in con.column:
+                    involved[id(c)] = c
+    return any(c.num_nodes not in (3, 4) for c in involved.values())
+
+
+def apply_op(mg, g, op, tmpdir=None, info=None):
     """apply one JSON-able operation to the real geometry.
-    returns (geometry afterwards, exception class name or None)"""
+    returns (geometry afterwards, exception class name or None); `info` (a dict) receives the
+    situation tags used to make finding keys specific"""
     import numpy as np
     name, a = op[0], (op[1] if len(op) > 1 else {})
+    if info is None:
+        info = {}
     try:
         with quiet():
             if name == 'add_node':
@@ -266,9 +340,18 @@ def apply_op(mg, g, op, tmpdir=None):
             elif name == 'refine':
                 cols = [find_col(g, l) for l in a.get('cols', [])]
                 edge = [find_col(g, l) for l in a.get('edge', [])]
+                try:
+                    if refine_unsupported(g, cols, a.get('bisect', False), edge):
+                        info['suffix'] = ':unsupported-column'
+                except Exception:
+                    pass
                 g.refine(cols, bisect=a.get('bisect', False), bisect_edge_columns=edge)
             elif name == 'refine_layers':
-                g.refine_layers(list(a.get('layers', [])), factor=a.get('factor', 2))
+                try:
+                    g.refine_layers(list(a.get('layers', [])), factor=a.get('factor', 2))
+                finally:
+                    if g.layerlist and any(l.name == g.layerlist[0].name for l in g.layerlist[1:]):
+                        info['suffix'] = ':atm-name-clash'     # the kept atmosphere layer name equals a generated name
             elif name == 'decompose_columns':
                 g.decompose_columns([find_col(g, l) for l in a.get('cols', [])])
             elif name == 'triangulate_column':
@@ -456,6 +539,9 @@ def geoinv(g):
                 'the nodes %r of connection %r are not a side of both of its columns' % ([nm(n) for n in con.node], con))
     # --- every column is counter-clockwise with positive area and a layer count matching its surface
     for c in g.columnlist:
+        if not all(math.isfinite(float(v)) for n in c.node for v in n.pos):
+            add('orientation', ('non-finite', id(c)), 'column %r has a node at a non-finite position' % c.name)
+            continue
         a2 = shoelace2(colpoly(c))
         if a2 <= 0:
             add('orientation', ('clockwise' if a2 < 0 else 'degenerate', id(c)),
@@ -532,7 +618,7 @@ def mesh_valid(inv):
     return not any(inv[c] for c in MESH_CLAUSES)
 
 
-def judge(name, exc, prev, cur):
+def judge(name, exc, prev, cur, suffix=''):
     """violations introduced by one operation.  Soundness rules:
       * an operation is blamed only when the state *before* it satisfied the invariant (what happens
         from an inconsistent state is outside the property: the first break is the counterexample);
@@ -566,7 +652,7 @@ def judge(name, exc, prev, cur):
         for item, msg in new.items():
             kinds.setdefault(item[0], []).append(msg)
         for sub, msgs in sorted(kinds.items()):
-            key = '%s:%s@%s%s' % (clause, sub, name, '!' + exc if exc else '')
+            key = '%s:%s@%s%s%s' % (clause, sub, name, '!' + exc if exc else '', suffix)
             out.append({'key': key,
                         'what': 'after %s%s: %s%s' % (name, ' (which raised %s)' % exc if exc else '', msgs[0],
                                                        ' (+%d more)' % (len(msgs) - 1) if len(msgs) > 1 else '')})
@@ -580,18 +666,21 @@ def run_sequence(mg, recipe, ops, tmpdir=None, known=(), observer=None):
     g = build(mg, recipe)
     prev = geoinv(g)
     viol, trace = [], []
+    if observer is not None and hasattr(observer, 'start'):
+        observer.start(g, prev, {'step': -1})
     for step, op in enumerate(ops):
         name = op[0]
         snap = observer.before(step, op, g) if observer else None
+        info = {}
         try:
-            g, exc = apply_op(mg, g, op, tmpdir)
+            g, exc = apply_op(mg, g, op, tmpdir, info)
         except Unresolved as e:
             trace.append({'op': name, 'exc': 'unresolved: %s' % e})
             break
         cur = geoinv(g)
         if observer:
-            observer.after(step, op, g, exc, snap, prev, cur)
-        vs = judge(name, exc, prev, cur)
+            observer.after(step, op, g, exc, snap, prev, cur, info)
+        vs = judge(name, exc, prev, cur, info.get('suffix', ''))
         for v in vs:
             v['step'] = step
         viol += vs
@@ -704,8 +793,9 @@ class C11Observer:
         snap['xvolume'] = exact_volume(g)
         return snap
 
-    def after(self, step, op, g, exc, snap, prev, cur):
+    def after(self, step, op, g, exc, snap, prev, cur, info=None):
         name = op[0]
+        suffix = (info or {}).get('suffix', '')
         if snap is None or exc is not None:
             return
         # the statement presupposes a consistent, valid, conforming start geometry
@@ -715,7 +805,7 @@ class C11Observer:
         self.stats[name] = self.stats.get(name, 0) + 1
 
         def bad(key, what):
-            self.violations.append({'key': '%s@%s' % (key, name), 'what': 'after %s: %s' % (name, what), 'step': step})
+            self.violations.append({'key': '%s@%s%s' % (key, name, suffix), 'what': 'after %s: %s' % (name, what), 'step': step})
 
         # when every coordinate is a small dyadic number the real code's mid-side positions are exact and
         # equalities are demanded exactly; otherwise (shipped geometries, rotations) rounding of the node
